@@ -37,7 +37,7 @@ theorem completeRequest_unknown (s : St) (id : Nat) (o : Outcome) (h : findEntry
 theorem tNext_item (s : St) (m : Msg) (rest : List Inb)
     (hf : s.readFused = false) (hfault : s.t.faultNext = false) (hin : s.t.inbound = .msg m :: rest) :
     tNext s = ({ s with t := { s.t with inbound := rest }, obs := .tNext (tid s) (.item m) :: s.obs }, .item m) := by
-  simp [tNext, hf, SimT.pollNext, hfault, hin, emit]
+  simp [tNext, hf, SimT.pollNext, SimT.fires, SimT.letThrough, hfault, hin, emit]
 
 theorem pumpRead_unknown_id (s : St) (id : Nat) (res : Res) (rest : List Inb)
     (hf : s.readFused = false) (hfault : s.t.faultNext = false)
